@@ -313,6 +313,10 @@ class Run:
         self.tier = tier
         self.seed = seed
         self.rng = random.Random((seed << 8) ^ int(hashlib.sha256(prop_id.encode()).hexdigest()[:8], 16))
+        # drift alarm, never a verdict: sources that differ from the reference tree make a quick check search at the thorough budget
+        self.changed_sources = changed_sources()
+        self.escalated = tier == "quick" and bool(self.changed_sources) and os.environ.get("VERIF_NO_ESCALATE") != "1"
+        self.quick = tier == "quick" and not self.escalated
         self.t0 = time.time()
         self.tie_breaks = []        # list of (kind, name, detail)
         self.violations = []        # list of dict (concrete failing inputs)
@@ -338,6 +342,8 @@ class Run:
 
     # -- ties ---------------------------------------------------------------------------------
     def do_ties(self):
+        if self.changed_sources:
+            self.note("sources differ from the reference tree: " + ", ".join(self.changed_sources[:6]) + (" -> searching at the thorough budget" if self.escalated else ""))
         ok, msg = run_translator()
         self.note(msg)
         if not ok:
@@ -460,6 +466,8 @@ class Run:
             "rule": self.rule,
             "samples": self.samples[:12] if self.samples else ["<none>"],
             "known_findings_reported": self.known,
+            "sources_changed_vs_reference_tree": self.changed_sources,
+            "search_budget": "thorough (escalated: sources changed)" if self.escalated else self.tier,
         }
         cov.update(self.extra)
         ev = {
@@ -478,6 +486,16 @@ class Run:
             print(l, flush=True)
         print(f"[{self.id}] done in {wall:.1f}s: obligations {cov['discharged']}/{cov['obligations']}, correspondence {self.corr_cases} cases ({len(self.corr_disagreements)} disagreements), search {self.evaluations} evaluations, violations {len(remaining)}", flush=True)
         return exit_code
+
+
+def changed_sources():
+    """Rust sources whose comment- and whitespace-free token stream differs from the reference tree (golden/fingerprints.json)"""
+    try:
+        sys.path.insert(0, os.path.join(VERIF, "tools"))
+        import fingerprint
+        return fingerprint.diff(REPO, os.path.join(VERIF, "golden", "fingerprints.json"))
+    except Exception as e:  # noqa
+        return [f"<fingerprint error: {e}>"]
 
 
 def repo_state():
